@@ -472,6 +472,39 @@ func canonIn(sb *strings.Builder, v any) {
 	}
 }
 
+// canonInDesc: like canonIn with the members of every object in DESCENDING order of their names (for the model's Sort:
+// the model has to sort them itself)
+func canonInDesc(sb *strings.Builder, v any) {
+	switch t := v.(type) {
+	case []any:
+		sb.WriteByte('[')
+		for i, x := range t {
+			if i > 0 {
+				sb.WriteByte(',')
+			}
+			canonInDesc(sb, x)
+		}
+		sb.WriteByte(']')
+	case map[string]any:
+		keys := make([]string, 0, len(t))
+		for k := range t {
+			keys = append(keys, k)
+		}
+		sort.Sort(sort.Reverse(sort.StringSlice(keys)))
+		sb.WriteByte('{')
+		for i, k := range keys {
+			if i > 0 {
+				sb.WriteByte(',')
+			}
+			sb.WriteString("K(" + lib.HexF([]byte(k)) + ")")
+			canonInDesc(sb, t[k])
+		}
+		sb.WriteByte('}')
+	default:
+		canonIn(sb, v)
+	}
+}
+
 func maxMembers(v any) int {
 	switch t := v.(type) {
 	case []any:
@@ -614,7 +647,18 @@ func judgeTree(d *lib.Driver, v any, o wopts) error {
 			if fl == "" {
 				fl = "-"
 			}
-			reqs = append(reqs, "tight\t"+fl+"\t"+sb.String())
+			if o.sort {
+				// Sort: the model gets the members in descending order and sorts them itself (Sen.sortVal)
+				var sd strings.Builder
+				canonInDesc(&sd, v)
+				if fl == "-" {
+					fl = ""
+				}
+				reqs = append(reqs, "tight\t"+fl+"s\t"+sd.String())
+				rep.Count("tie.sort_strings", 1)
+			} else {
+				reqs = append(reqs, "tight\t"+fl+"\t"+sb.String())
+			}
 		}
 		// the indented writer (Tab or 0 < Indent): Sen.indentVal, byte for byte
 		indented := strings.HasPrefix(o.writer, "sen.") && (o.indent > 0 || o.tab) && (o.sort || maxMembers(v) <= 1)
@@ -640,7 +684,17 @@ func judgeTree(d *lib.Driver, v any, o wopts) error {
 			if ind < 0 {
 				ind = 0
 			}
-			reqs = append(reqs, "indent\t"+fl+"\t"+tb+"\t"+strconv.Itoa(ind)+"\t"+sb.String())
+			if o.sort {
+				var sd strings.Builder
+				canonInDesc(&sd, v)
+				if fl == "-" {
+					fl = ""
+				}
+				reqs = append(reqs, "indent\t"+fl+"s\t"+tb+"\t"+strconv.Itoa(ind)+"\t"+sd.String())
+				rep.Count("tie.sort_strings", 1)
+			} else {
+				reqs = append(reqs, "indent\t"+fl+"\t"+tb+"\t"+strconv.Itoa(ind)+"\t"+sb.String())
+			}
 		}
 		// pretty.SEN / pretty.WriteSEN: no model of the layout rules; the text has to be a white-space layout of the tree
 		// (Sen.isLayout, hypothesis of C10_anylayout_partial)
